@@ -712,9 +712,16 @@ fn probes(ctx: &mut Ctx) {
     for n in [31usize, 32] {
         let case = format!("backing::Memory, {} bytes set at 0xffffffffffffffe0", n);
         let r = catch_unwind(AssertUnwindSafe(|| { let mut m = Memory::new(Endian::Little); m.set_memory(top, code[..n].to_vec(), rx); (m.get8(u64::MAX), m.get8(top), Toy.translate_function(&m, top)) }));
+        // n = 32 (a section ending exactly at 2^64): `backing::Memory::section_address` computes start + len, which wraps to 0
+        // (release: the section is invisible; debug: panic in lib/memory/backing.rs).  That is a defect of the memory model
+        // (unit C16's code), not of function recovery: reported as a probe line only, never as a witness of C06.
         match r {
-            Err(_) => { ctx.evals += 1; pr("P2", &case, &format!("panic: {}", last_panic())); ctx.report("address-wrap", &p2, None, &format!("panic: {} ({})", last_panic(), case), "lifted"); }
-            Ok((last, first, f)) => { pr("P2", &case, &format!("get8(2^64-1)={:?} get8(0x..e0)={:?}", last, first)); judge(ctx, &case, Ok(f), &Prog { bytes: code[..n].to_vec(), ..p2.clone() }); }
+            Err(_) => { ctx.evals += 1; pr("P2", &case, &format!("panic: {}", last_panic())); if n < 32 { ctx.report("address-wrap", &p2, None, &format!("panic: {} ({})", last_panic(), case), "lifted"); } }
+            Ok((last, first, f)) => {
+                pr("P2", &case, &format!("get8(2^64-1)={:?} get8(0x..e0)={:?}", last, first));
+                if n < 32 { judge(ctx, &case, Ok(f), &Prog { bytes: code[..n].to_vec(), ..p2.clone() }); }
+                else { ctx.evals += 1; pr("P2", &case, &match f { Ok(f) => format!("Ok {} (NOT counted: backing::Memory hides a section that ends at 2^64)", describe(&f)), Err(e) => format!("Err({})", e) }); }
+            }
         }
     }
     // ---- P3 no EXECUTE permission at the function address
